@@ -190,7 +190,7 @@ class Check(PropertyCheck):
         return mod.main()
     parallel = True
     level = 'proof'
-    rule = ('real astropy.wcs.WCS: TAN/SIN x linear part encoded as PC+CDELT(-s,s) / full CD matrix / parity flip inside PC with positive CDELT / CROTA2+CDELT (the same transformation) x rotation -180..180 deg x scale 1e-5..1e-2 deg/pix (log-uniform) x standard parity x '
+    rule = ('real astropy.wcs.WCS: TAN/SIN x longitude-first and (20%) latitude-first world axes x linear part encoded as PC+CDELT(-s,s) / full CD matrix / parity flip inside PC with positive CDELT / CROTA2+CDELT (the same transformation) x rotation -180..180 deg x scale 1e-5..1e-2 deg/pix (log-uniform) x standard parity x '
             'ICRS/FK5/Galactic x reference |lat|<85; circle/ellipse/rectangle/circle-, ellipse-, rectangle-annulus sky regions with sizes '
             'of 1-50 pixels, any angle in deg/rad/arcmin/hourangle, every size independently in arcsec/arcmin/deg/mas/rad/hourangle, centres within min(300 px, 1 deg) of the '
             'reference pixel (beyond 1 deg off-axis a TAN/SIN projection is not a similarity to 1e-3: radial/tangential scales differ by theta^2/2). '
